@@ -93,7 +93,7 @@ impl Role {
 }
 
 /// Assign adversarial names.  `single`: put exactly this one pool name at this one role.
-fn adversarial_names(m: &mut Model, rng: &mut Rng, density: f64, single: Option<(Role, &str)>) -> Vec<(Role, String)> {
+pub fn adversarial_names(m: &mut Model, rng: &mut Rng, density: f64, single: Option<(Role, &str)>) -> Vec<(Role, String)> {
     let mut used_top: Vec<String> = vec![];
     let mut placed: Vec<(Role, String)> = vec![];
     let fresh_top = |rng: &mut Rng, used: &Vec<String>, default: String, role: Role, placed: &mut Vec<(Role, String)>, single: Option<(Role, &str)>, first_slot: bool| -> String {
